@@ -153,4 +153,17 @@ o P0 240113#KQ sprint two todo @c1
 
 - 240109#KJ note in big slash x
 """,
+    "memo.zo": """# MEMO
+
+- 240114#KS note in memo
+o P2 240114#KT todo in memo @c1
+""",
+    "mem.zo": """# MEM
+
+- 240115#KU note in mem
+""",
+    "jazz.zo": """# JAZZ
+
+x 240116#KV done in jazz
+""",
 }
